@@ -127,8 +127,9 @@ CHECKS = {
              "env": {"GBV_REPO_BIN": "{repo_bin}", "GBV_REPO_BIN_JIT": "{repo_bin_jit}", "GBV_REPO_BIN_REL": "{repo_bin_rel}", "GBV_REPO_BIN_JIT_REL": "{repo_bin_jit_rel}"}},
         ] + valgrind_stream_pair("c04", 160),
         "floors": {"quick": {"steps-compared-with-interpreter-build": 600_000, "jit:dispatches:vblank": 100, "jit:dispatches:timer": 1_000, "jit:dma-transfers": 300,
-                             "jit:ram-resident-blocks": 5_000, "jit:suspended-steps": 100_000, "jit:serial-bytes": 500, "code-cache-restarts-observed": 1, "runs-of-the-real-binaries": 60, "access-tests-in-the-programs": 600},
-                   "thorough": {"steps-compared-with-interpreter-build": 10_000_000, "runs-of-the-real-binaries": 300}},
+                             "jit:ram-resident-blocks": 5_000, "jit:suspended-steps": 100_000, "jit:serial-bytes": 500, "code-cache-restarts-observed": 1, "runs-of-the-real-binaries": 60, "access-tests-in-the-programs": 600,
+                             "relative-jump-ladder:sites-entered": 750, "blocks-entered-at-0000-after-a-dispatch-cancelled-by-its-push": 100},
+                   "thorough": {"steps-compared-with-interpreter-build": 10_000_000, "runs-of-the-real-binaries": 300, "relative-jump-ladder:sites-entered": 750, "blocks-entered-at-0000-after-a-dispatch-cancelled-by-its-push": 100}},
         "exhaustive": {"quick": False, "thorough": False},
         "assumptions": ["the step-by-step comparison runs on builds that include the observation hooks; the hooks-off binaries (debug and release profile, recompiler on and off) are compared end to end through their serial output on generated ROMs"],
     },
@@ -211,8 +212,8 @@ CHECKS = {
             {"variant": "jit-dbg", "monitor": "c09", "shards": 16},
             asan_phase("c09"),
         ],
-        "floors": {"quick": {"evaluations": 3_000_000, "dispatches": 5_000, "steps:halted-or-stopped": 100_000, "run_frame-calls": 500, "frame-synchronous-loops": 6},
-                   "thorough": {"evaluations": 30_000_000, "frame-synchronous-loops": 6}},
+        "floors": {"quick": {"evaluations": 3_000_000, "dispatches": 5_000, "dispatches-cancelled-by-their-own-push": 500, "steps:halted-or-stopped": 100_000, "run_frame-calls": 500, "frame-synchronous-loops": 6},
+                   "thorough": {"evaluations": 30_000_000, "frame-synchronous-loops": 6, "dispatches-cancelled-by-their-own-push": 500}},
         "exhaustive": {"quick": False, "thorough": False},
         "assumptions": [REFCPU, "an unbounded 'always terminates' is restated as bounded progress in emulated time"],
     },
@@ -239,7 +240,7 @@ CHECKS = {
     "C11": {
         "title": "no guest-controlled bus access can crash the emulator",
         "level": "fault_enumeration",
-        "rule": "cases = single bus accesses (read, write, word read, word write) on cores loaded through the real loader from generated files for every supported "
+        "rule": "cases = single bus accesses (read, write, word read, word write, stack-order word write, and the same five through the entry points translated code calls, with the upper bits of the argument registers set) on cores loaded through the real loader from generated files for every supported "
                 "(type, ROM-size code, RAM-size code) combination, under every value written to each banking-register area and random register histories; the oracle is the "
                 "survival of the worker process in a build with overflow checks (a death is attributed to the access announced in shared memory). "
                 "distinct_nontrivial = distinct configurations exercised",
